@@ -30,9 +30,9 @@ Family2 == {Desc(pa, pb, <<>>, opt) : pa \in {<<>>, <<"x">>, <<"x", "y">>},
 Quick2  == {Desc(pa, pb, <<>>, opt) : pa \in {<<"x">>, <<"x", "y">>},
                                       pb \in {<<"a">>, <<"x", "a">>, <<"x", "a2">>},
                                       opt \in {"none", "default_x_first", "bound_b_first", "multi_a"}}
-Family3 == {Desc(pa, pb, pc, opt) : pa \in {<<"x">>, <<"x", "y">>},
-                                    pb \in {<<"a">>, <<"x", "a">>, <<"y", "a">>},
-                                    pc \in {<<"a", "b">>, <<"b">>, <<"x", "b">>, <<"y", "b">>, <<"z", "b">>},
+Family3 == {Desc(pa, pb, pc, opt) : pa \in {<<"x">>},
+                                    pb \in {<<"a">>, <<"x", "a">>},
+                                    pc \in {<<"a", "b">>, <<"b">>, <<"x", "b">>},
                                     opt \in {"none", "default_x_first", "bound_b_first", "bound_c_up", "multi_a"}}
 Descs == {dd \in (CASE Family = "f2" -> Family2 [] Family = "q2" -> Quick2 [] Family = "f3" -> Family3
                    [] Family = "u2" -> Universe) : Valid(dd)}
